@@ -101,6 +101,10 @@ class C06(Check):
         return 120 if tier == 'quick' else 1200
 
     def gen(self, rng, tier, i):
+        if rng.chance(0.04):
+            # file data located beyond 2^32 / 2^40 bytes: the 64-bit offset and size fields, on a virtual image
+            return {'huge': True, 'seed': rng.getrandbits(32), 'start': rng.pick([0, 0x10, 0x1234]),
+                    'offs': [rng.pick([1 << 32, (1 << 32) + 0x10, (1 << 33) + 5, 1 << 40, (1 << 44) + 0x123]) + 0x40 * k for k in range(3)]}
         ci = rng.chance(0.4)
         # case-insensitive mode over letters with full-Unicode case mappings: Python's own str.lower() is the reference there
         # (the executable model lower-cases ASCII only, so these cases are decided by the monitors, not by the model comparison)
@@ -157,7 +161,58 @@ class C06(Check):
                 t = ['d', '', [['d', 'n%d' % k, t[2], t[3]]], []]
             yield {'tree': t, 'ivfc': None, 'start': 0x10, 'ci': 0, 'mut': None, 'seed': 1}
 
+    def run_huge(self, case, drv):
+        import struct
+        from corr_c01 import VirtualFile
+        from pyctr.type.romfs import RomFSReader
+        rng = Rng(case['seed'])
+        names = ['a.bin', 'sub-b', 'c']
+        tree = ['d', '', [['d', 'dir', [], [[names[1], b'\0' * 8]]]], [[names[0], b'\0' * 5], [names[2], b'\0' * 16]]]
+        lv3, info = build_lv3(tree)
+        lv3 = bytearray(lv3[:info['fdo']])
+        fmo = int.from_bytes(lv3[28:32], 'little')
+        # file entries in table order: a.bin, c (root), sub-b (dir)
+        order = [f[0] for f in info['fent']]
+        sizes = {}
+        pos = 0
+        want = {}
+        for k, fname in enumerate(order):
+            ent = fmo + pos
+            off = case['offs'][k]
+            size = [5, 16, 33][k]
+            lv3[ent + 8:ent + 16] = struct.pack('<Q', off)
+            lv3[ent + 16:ent + 24] = struct.pack('<Q', size)
+            want[fname] = (off, size)
+            nlen = int.from_bytes(lv3[ent + 0x1C:ent + 0x20], 'little')
+            pos += 0x20 + (nlen + 3) // 4 * 4
+        start = case['start']
+        vf = VirtualFile(1 << 46, rng.rbytes(8))
+        for i, b in enumerate(bytes(lv3)):
+            vf.written[start + i] = b
+        vf.seek(start)
+        mon, outs = [], []
+        try:
+            rd = RomFSReader(vf, closefd=False)
+            for path, fname in (('/a.bin', 'a.bin'), ('/c', 'c'), ('/dir/sub-b', 'sub-b')):
+                off, size = want[fname]
+                inf = rd.getinfo(path, namespaces=['details'])
+                f = rd.openbin(path)
+                d = f.read()
+                outs.append(d.hex())
+                exp = vf.content(start + info['fdo'] + off, size)
+                if inf.size != size:
+                    mon.append(f'{path}: size reported {inf.size}, stored {size}')
+                if d != exp:
+                    mon.append(f'{path}: bytes read are not the {size} bytes at data offset {off:#x} of the image')
+        except Exception as ex:     # noqa
+            outs.append('e:' + exc_name(ex))
+            mon.append(f'RomFS with file data beyond 2^32: {exc_name(ex)}: {ex}')
+        real = ' '.join(outs)
+        return CaseResult(real, real, mon, 'huge:%d' % case['seed'], 'romfs.huge' if mon else None, {'mode:huge': 1})
+
     def run_case(self, case, drv):
+        if case.get('huge'):
+            return self.run_huge(case, drv)
         from pyctr.type.romfs import RomFSReader
         from fs import errors as fserrors
         if 'fixture' in case:
@@ -292,7 +347,7 @@ class C06(Check):
         return CaseResult(real, model, mon, sig=str(hash(real)) if nontrivial else '', key=key, info=info_d)
 
     def shrink(self, case):
-        if 'fixture' in case:
+        if 'fixture' in case or case.get('huge'):
             return
         t = case['tree']
         for i in range(len(t[2])):
